@@ -4,6 +4,7 @@ import (
 	"bufio"
 	"bytes"
 	"fmt"
+	"github.com/yuin/goldmark/ast"
 	"os"
 	"os/exec"
 	"runtime"
@@ -231,6 +232,11 @@ func runC01(r *core.Run) {
 		s.Done()
 	}
 
+	// runs of documents sharing one parser.Context (parser.WithContext): no panic, no error
+	for _, cn := range []string{"all+autoid+attr+unsafe+xhtml", "core"} {
+		sharedContextSub(r, "shared-context/"+cn, "no call panics or returns an error", core.MustCfg(cn), c12StructuredDocs(r.Quick()),
+			func(s *core.Sub, cfg core.Cfg, d, out []byte, tree ast.Node, hist []string) {})
+	}
 	// (d) edit neighbourhood of the spec examples under the suite's fuzz configuration and a safe CJK one
 	for _, cn := range []string{"all+autoid+attr+unsafe+xhtml", "all+cjk"} {
 		nbhdSub(r, "nbhd-spec/"+cn, core.MustCfg(cn), func(s *core.Sub, cv *core.Conv, w []byte) { c01Case(s, cv, w) })
